@@ -417,9 +417,18 @@ def iso_case(draw, tier="quick"):
 
 def run_iso(c):
     d, v = c["d"], c["v"]
-    o, _ = Z.build(c["kind"], d, v)
+    if c["kind"] == "line":
+        # a finite line through two different finite lattice points (the line at infinity is not a finite object)
+        a, b = np.array(v[0:d], float), np.array(v[d : 2 * d], float)
+        if np.array_equal(a, b):
+            raise Skip("degenerate")
+        o = Line(P(a), P(b))
+    else:
+        o, _ = Z.build(c["kind"], d, v)
     if c["kind"] == "point" and abs(o.array[-1]) < 1e-12:
         raise Skip("infinite")
+    if c["kind"] == "plane" and not np.any(o.array[:-1]):
+        raise Skip("plane at infinity")
     q = P(c["q"][:d])
     th = c["ang"] * math.pi / 12
     if d == 2:
